@@ -1,5 +1,6 @@
 """C03 -- glyph order and character map follow the source exactly."""
 import io, itertools, traceback
+from fractions import Fraction as Fr
 from harness import gterm as G
 from harness.fonts import build_font, rand_names, jsonable
 
@@ -147,6 +148,75 @@ def renamed_cmap_section(ctx):
                 break
 
 
+def family_section(ctx):
+    """the interpolatable and variable entry points (font lists, designspaces; glyf and CFF2): every compiled font -- each
+    master, the variable font -- has the glyph order and the character map of the rule, over the EXPORTED glyphs: a glyph
+    named in skipExportGlyphs (referenced by nobody, or used as a component) is in neither"""
+    import ufo2ft
+    from harness import dsgen
+    from fontTools.ttLib import TTFont
+    rng = ctx.subrng("family")
+    sq = lambda x, d: [[(Fr(x), Fr(0), "line"), (Fr(x + d), Fr(0), "line"), (Fr(x + d), Fr(d), "line"), (Fr(x), Fr(d), "line")]]
+    one = (Fr(1), Fr(0), Fr(0), Fr(1))
+    FNS = ["compileInterpolatableTTFs", "compileInterpolatableTTFsFromDS", "compileInterpolatableOTFsFromDS", "compileVariableTTF", "compileVariableCFF2"]
+    for i in range(ctx.budget(10, 40)):
+        lib = ["ufoLib2", "defcon"][i % 2]
+        fn = FNS[i % 5]
+        skip_kind = ["unreferenced", "none", "component", "unreferenced-by-argument"][(i // 5) % 4]
+
+        def master(k):
+            d = 10 * k
+            gl = [{"name": "c", "unicodes": [0x63], "width": Fr(500 + d), "contours": sq(0, 100 + d), "components": [], "anchors": []},
+                  {"name": "b", "unicodes": [0x62, 0x1F600], "width": Fr(510 + d), "contours": sq(10, 90 + d), "components": [], "anchors": []},
+                  {"name": "a", "unicodes": [0x61], "width": Fr(520 + d), "contours": sq(20, 80 + d), "components": [], "anchors": []},
+                  {"name": "zeta", "unicodes": [0x3B6, 0x1D6C7], "width": Fr(530 + d), "contours": sq(5, 70 + d), "components": [], "anchors": []},
+                  {"name": "d", "unicodes": [0x64], "width": Fr(540 + d), "contours": [], "anchors": [],
+                   "components": [("a", one + (Fr(3 + d), Fr(0)))] + ([("b", one + (Fr(200), Fr(0)))] if skip_kind == "component" else [])}]
+            lb = {"public.skipExportGlyphs": ["b"]} if skip_kind in ("unreferenced", "component") else {}
+            return {"glyphs": gl, "glyphOrder": ["c", "b", "ghost", "a", "c"], "lib": lb, "kerning": {}, "groups": {},
+                    "info": {"familyName": "Fam", "styleName": "M%d" % k, "unitsPerEm": 1000, "ascender": 800, "descender": -200}}
+        masters = [master(0), master(2)]
+        ds, fonts = dsgen.make_designspace(rng, masters, lib)
+        kw = {"skipExportGlyphs": ["b"]} if skip_kind == "unreferenced-by-argument" else {}
+        if skip_kind in ("unreferenced", "component") and "FromDS" in fn or fn.startswith("compileVariable"):
+            if skip_kind in ("unreferenced", "component"):
+                ds.lib["public.skipExportGlyphs"] = ["b"]
+        skipped = {"b"} if skip_kind != "none" else set()
+        case = {"function": fn, "lib": lib, "skip": skip_kind, "options": jsonable(kw), "font": jsonable(masters[0])}
+        ctx.count(); ctx.klass("family: %s / skip %s" % (fn, skip_kind)); ctx.nontriv(("fam", i, ctx.scale))
+        try:
+            if fn == "compileInterpolatableTTFs":
+                outs = list(ufo2ft.compileInterpolatableTTFs(fonts, useProductionNames=False, **kw))
+            elif "Interpolatable" in fn:
+                outs = [sd.font for sd in getattr(ufo2ft, fn)(ds, useProductionNames=False, **kw).sources]
+            else:
+                outs = [getattr(ufo2ft, fn)(ds, useProductionNames=False, **kw)]
+        except Exception as e:
+            ctx.spec_failure(case, "%s raised %s: %s\n%s" % (fn, type(e).__name__, e, traceback.format_exc()[-1000:]))
+            continue
+        exported = [g for g in masters[0]["glyphs"] if g["name"] not in skipped]
+        names = {g["name"] for g in exported}
+        stored = [n for n in dict.fromkeys(masters[0]["glyphOrder"]) if n in names]
+        want_order = [".notdef"] + stored + sorted(names - set(stored))
+        want_cmap = {u: g["name"] for g in exported for u in g["unicodes"]}
+        for k, tt in enumerate(outs):
+            b = io.BytesIO(); tt.save(b); tt = TTFont(io.BytesIO(b.getvalue()))
+            if tt.getGlyphOrder() != want_order:
+                ctx.spec_failure(dict(case, font_index=k, glyph_order=tt.getGlyphOrder(), expected=want_order),
+                                 "font %d of %s has glyph order %r, the rule gives %r" % (k, fn, tt.getGlyphOrder(), want_order))
+                break
+            bad = None
+            for st in tt["cmap"].tables:
+                if st.isUnicode() and st.format in (4, 12):
+                    exp = {u: n for u, n in want_cmap.items() if st.format == 12 or u <= 0xFFFF}
+                    if dict(st.cmap) != exp:
+                        bad = "cmap format %d of font %d maps %r, the exported glyphs declare %r" % (
+                            st.format, k, {hex(u): n for u, n in sorted(st.cmap.items())}, {hex(u): n for u, n in sorted(exp.items())})
+            if bad:
+                ctx.spec_failure(dict(case, font_index=k), bad)
+                break
+
+
 def observe_compiled(desc, flavor, lib, explicit_order):
     import ufo2ft
     from fontTools.ttLib import TTFont
@@ -188,6 +258,7 @@ def observe_compiled(desc, flavor, lib, explicit_order):
 
 def explore(ctx):
     renamed_cmap_section(ctx)
+    family_section(ctx)
     # ---- function level
     cases, meta = [], []
     n = ctx.budget(300, 3000)
